@@ -240,12 +240,25 @@ def out4(units, R):
         if l.get('k') == 'mem' and not l['arrow'] and l['f'] in want:
             r = strip_casts(a['r'])
             got[l['f']] = r['n'] if r.get('k') == 'ref' else const_val(a['r'])
+    # a field not assigned keeps the value of the zero initialiser of the local printbuffer
+    for d in pp.locals():
+        if 'init' in d and strip_casts(d['init']).get('k') == 'initlist' and u.ty(d['ty'])['c'] == 'record':
+            inits = strip_casts(d['init'])['inits']
+            if all(const_val(i) == 0 or i.get('null') or strip_casts(i).get('k') == 'initlist' for i in inits):
+                for f in want:
+                    got.setdefault(f, 0)
     for f, w in want.items():
         R.ob('OUT4', pp, None, 'cJSON_PrintPreallocated sets p.%s = %s' % (f, w), got.get(f) == w, 'found %s' % got.get(f), key='prealloc:' + f)
     # nobody but ensure writes noalloc/length/buffer of a printbuffer passed by pointer
     n = 0
+    # helpers called only from ensure belong to ensure
+    ensure_helpers = set()
     for fn2 in print_family(u):
-        if fn2.name == 'ensure':
+        callers = {g.name for g in u.function_list for c in g.calls() if callee_name(c) == fn2.name}
+        if fn2.static and callers and callers <= {'ensure'}:
+            ensure_helpers.add(fn2.name)
+    for fn2 in print_family(u):
+        if fn2.name == 'ensure' or fn2.name in ensure_helpers:
             continue
         local_aggr = {d['d'] for d in fn2.locals() if u.ty(d['ty'])['c'] in ('record', 'array')}
         for a in assignments(fn2):
